@@ -11,12 +11,13 @@
   and the prefix test `shard.starts_with(kg ++ ":")` used by load / save / drop (mod.rs:1733, 806, 283).
 
   Steps (scheduling points = entry of each call + the `se.*` yield points listed in harness c17.rs):
-    create  : ⟨validate; tombstone check⟩ ; ⟨DashMap entry: exists → Err | insert⟩ ; ⟨collect names⟩ ; ⟨write knowledge_graphs.json⟩
-    drop    : ⟨default/exists checks; dropping_kgs.write(): tombstone⟩ ; ⟨remove from map⟩ ; ⟨collect names⟩ ; ⟨write json⟩ ;
+    create  : ⟨validate (':' rejected); tombstone check⟩ ; ⟨DashMap entry: exists → Err | insert⟩ ;
+              ⟨metadata_save_lock; collect names⟩ ; ⟨write knowledge_graphs.json; unlock⟩
+    drop    : ⟨default/exists checks; dropping_kgs.write(): tombstone⟩ ; ⟨remove from map⟩ ; ⟨lock; collect names⟩ ; ⟨write json; unlock⟩ ;
               ⟨delete every shard with the prefix⟩ ; ⟨remove dir; dropping_kgs.write(): untombstone⟩
-    insert  : ⟨KG lookup (view/arity checks)⟩ ; ⟨dropping_kgs.read() guard; tombstone check; time⟩ ;
+    insert  : ⟨KG lookup (view/arity checks)⟩ ; ⟨dropping_kgs.read() guard; tombstone check; KG still in the map?; time⟩ ;
               ⟨ensure_shard; append; release guard⟩ ; ⟨KG lookup; write lock; apply⟩
-    delete  : the same without the first step (no KG lookup before persisting, mod.rs:572-600)
+    delete  : the same without the first step
   `dropping_kgs` is an RwLock: a thread parked between its 2nd and 3rd insert/delete step holds the
   read guard, so the two tombstone steps of `drop` are blocked meanwhile.
   Persist state is reduced to what matters for names: per shard the updates in batches and in the
@@ -53,7 +54,7 @@ def hasDotDot : Name → Bool
 
 /-- `create_knowledge_graph` name validation (mod.rs:169-186) -/
 def validName (n : Name) : Bool :=
-  !n.isEmpty && !n.contains '/' && !n.contains '\\' && !n.contains (Char.ofNat 0) &&
+  !n.isEmpty && !n.contains '/' && !n.contains '\\' && !n.contains (Char.ofNat 0) && !n.contains ':' &&
   !hasDotDot n && n != ['.'] && n.length ≤ 128     -- byte length (MAX_KG_NAME_BYTES)
 
 inductive Op where
@@ -99,6 +100,7 @@ structure State where
   wal : List (Name × Upd) := []
   persistedForMissing : Bool := false                  -- ghost: an append ran for a KG that is not in the map
   staleMetaWrite : Bool := false                       -- ghost: knowledge_graphs.json written from an outdated name list
+  metaLock : Option Tid := none                        -- holder of `metadata_save_lock` (collect + write of the json)
   n : Nat := 0
   threads : Tid → Thread := fun _ => {}
 
@@ -211,8 +213,8 @@ def step (st : State) (t : Tid) : Res :=
       else go st .c1
     | .create kg, .c1 =>
       if (lookup kg st.kgs).isSome then fin st .ex else go { st with kgs := st.kgs ++ [(kg, [])] } .c2
-    | .create _, .c2 => go st (.c3 (names st))
-    | .create _, .c3 ns => fin { st with metaFile := ns, staleMetaWrite := st.staleMetaWrite || ns != names st } .ok
+    | .create _, .c2 => if st.metaLock.isSome then .blocked else go { st with metaLock := some t } (.c3 (names st))
+    | .create _, .c3 ns => fin { st with metaFile := ns, metaLock := none, staleMetaWrite := st.staleMetaWrite || ns != names st } .ok
     -- drop
     | .drop kg, .start =>
       if kg = defaultKg then fin st .dd
@@ -220,13 +222,16 @@ def step (st : State) (t : Tid) : Res :=
       else if guardHeld st then .blocked
       else go { st with tomb := st.tomb ++ [kg] } .d1
     | .drop kg, .d1 => go { st with kgs := erase kg st.kgs } .d2
-    | .drop _, .d2 => go st (.d3 (names st))
-    | .drop _, .d3 ns => go { st with metaFile := ns, staleMetaWrite := st.staleMetaWrite || ns != names st } .d4
+    | .drop _, .d2 => if st.metaLock.isSome then .blocked else go { st with metaLock := some t } (.d3 (names st))
+    | .drop _, .d3 ns => go { st with metaFile := ns, metaLock := none, staleMetaWrite := st.staleMetaWrite || ns != names st } .d4
     | .drop kg, .d4 => go (((st.mem.map (·.1)).filter (hasPrefix kg)).foldl deleteShard st) .d5
     | .drop kg, .d5 => if guardHeld st then .blocked else fin { st with tomb := st.tomb.filter (· != kg) } .ok
     -- insert
     | .ins kg _ _, .start => if (lookup kg st.kgs).isNone then fin st .nf else go st .i1
-    | .ins kg _ _, .i1 => if st.tomb.contains kg then fin st .nf else go st .i2
+    | .ins kg _ _, .i1 =>
+      if st.tomb.contains kg then fin st .nf
+      else if (lookup kg st.kgs).isNone then fin st .nf          -- re-check under the guard (mod.rs:512)
+      else go st .i2
     | .ins kg rel x, .i2 =>
       let s := shardName kg rel
       go { appendUpd (ensureShard st s) s (x, 1) with persistedForMissing := st.persistedForMissing || (lookup kg st.kgs).isNone } .i3
@@ -235,7 +240,10 @@ def step (st : State) (t : Tid) : Res :=
       | none => fin st .nf
       | some rels => let (r', o) := insRel rels rel x; fin { st with kgs := put kg r' st.kgs } o
     -- delete
-    | .del kg _ _, .start => if st.tomb.contains kg then fin st .nf else go st .e2
+    | .del kg _ _, .start =>
+      if st.tomb.contains kg then fin st .nf
+      else if (lookup kg st.kgs).isNone then fin st .nf          -- existence check under the guard (mod.rs:636)
+      else go st .e2
     | .del kg rel x, .e2 =>
       let s := shardName kg rel
       go { appendUpd (ensureShard st s) s (x, -1) with persistedForMissing := st.persistedForMissing || (lookup kg st.kgs).isNone } .e3
@@ -269,9 +277,15 @@ def blockedAt : State → List Tid → Nat → Option Nat
 
 def Thread.finished (th : Thread) : Bool := th.todo.isEmpty
 
-/-- completion order of the harness: a guard holder first, else the lowest unfinished thread -/
+def holdsLock (pc : Pc) : Bool :=
+  match pc with
+  | .i2 => true | .e2 => true | .c3 _ => true | .d3 _ => true
+  | _ => false
+
+/-- completion order of the harness: the lowest thread parked inside a critical section (tombstone
+    read guard, metadata mutex) first, else the lowest unfinished thread -/
 def nextToRun (st : State) : Option Tid :=
-  match (List.range st.n).find? (fun t => (st.threads t).pc == .i2 || (st.threads t).pc == .e2) with
+  match (List.range st.n).find? (fun t => holdsLock (st.threads t).pc) with
   | some t => some t
   | none => (List.range st.n).find? (fun (t : Nat) => !(st.threads t).finished)
 
